@@ -23,7 +23,9 @@ META = {
         'is passed unchanged to the compiled pipe; (nomut) no code that runs '
         'inside a compiled function writes in place to an object it did not '
         'create - the frozen constants and the caller\'s arguments are the '
-        'same objects on every call.'),
+        'same objects on every call; (history) compile never reads the stored '
+        'solution of an earlier calculation, so what it freezes comes from '
+        'the model alone.'),
     'not_decided': (
         'Soundness of pruning by blockers for all argument values (branch, '
         'error and shape changes).'),
@@ -361,5 +363,7 @@ def run(ctx):
     for o in v.obligations:
         o.rule = 'C08.volatile'
     from .c07 import rule_nomut
+    from .modelstate import rule_history
     return [rule_unset(ctx), rule_freeze(ctx), rule_flag(ctx), r, v,
-            rule_nomut(ctx, 'C08', 'C08.nomut')]
+            rule_nomut(ctx, 'C08', 'C08.nomut'),
+            rule_history(ctx, 'C08', 'C08.history')]
